@@ -431,12 +431,12 @@ SWEEP_CFGS = ("baseline", "perturb-01", "perturb-a5", "perturb-ff")
 SWEEP_CFGS_THOROUGH = ("baseline", "perturb-01", "perturb-55", "perturb-a5", "perturb-aa", "perturb-ff", "mmap-all", "arena-max")
 
 
-def _sweep_programs(kmax, cfg_names):
+def _sweep_programs(kmax, cfg_names, layouts=("first", "last")):
+    """layout 'first': the function with the construct is the first one of the file (the critical table sizes are reached
+    while it is type checked); 'last': it is the last item, so the table is at its high-water mark there in EVERY later
+    phase too (shadow-test evaluation, transpilation), which is what a stale pointer in those phases needs."""
     out = []
-    for cname, body in SWEEP_CONSTRUCTS:
-        for k in range(kmax + 1):
-            pads = "".join("    let p%d: int = %d\n" % (i, i) for i in range(k))
-            text = """union Reading {
+    head = """union Reading {
     Valid { value: int, weight: float },
     Missing { code: int },
     Stale { age: int }
@@ -446,7 +446,19 @@ fn helper(n: int) -> int {
     return (+ n 1)
 }
 shadow helper { assert (== (helper 1) 2) }
-
+"""
+    mainfn = """
+fn main() -> int {
+    (println (collect Reading.Missing { code: 3 } 1))
+    return 0
+}
+shadow main { assert (== (main) 0) }
+"""
+    for layout in layouts:
+        for cname, body in SWEEP_CONSTRUCTS:
+            for k in range(kmax + 1):
+                pads = "".join("    let p%d: int = %d\n" % (i, i) for i in range(k))
+                collect = """
 fn collect(r: Reading, scale: int) -> int {
     let mut acc: int = 0
     let mut fsum: float = 0.0
@@ -457,19 +469,16 @@ fn collect(r: Reading, scale: int) -> int {
     }
     return (+ acc (+ (array_length xs) (at ys 0)))
 }
-
+""" % (pads, body % {"I": SWEEP_MATCH_I, "F": SWEEP_MATCH_F})
+                shadow = """
 shadow collect {
     assert (>= (collect Reading.Valid { value: 2, weight: 1.5 } 3) 0)
 }
-
-fn main() -> int {
-    (println (collect Reading.Missing { code: 3 } 1))
-    return 0
-}
-shadow main { assert (== (main) 0) }
-""" % (pads, body % {"I": SWEEP_MATCH_I, "F": SWEEP_MATCH_F})
-            out.append(Prog("sweep", "sweep-%s-k%02d" % (cname, k), {"main.nano": text.encode()}, "main.nano",
-                            note="match in %s position behind %d padding lets" % (cname, k), cfg_names=cfg_names))
+"""
+                text = (head + collect + shadow + mainfn) if layout == "first" else (head + mainfn + collect)
+                out.append(Prog("sweep", "sweep-%s-%s-k%02d" % (layout, cname, k), {"main.nano": text.encode()}, "main.nano",
+                                note="match in %s position behind %d padding lets, function %s in the file" % (cname, k, layout),
+                                cfg_names=cfg_names))
     return out
 
 
